@@ -71,7 +71,7 @@ def make_case(rng, i, tier):
 
 def run(ctx):
     rng, tier = ctx["rng"], ctx["tier"]
-    n = 80 if tier == "quick" else 1500
+    n = int((80 if tier == "quick" else 1500) * ctx.get("mult", 1))
     hashseeds = [0, 1] if tier == "quick" else [0, 1, 2, 3]
     if ctx.get("replay"):
         cases = [f["case"] for f in ctx["replay"]["failing"] if "case" in f]
